@@ -395,6 +395,15 @@ def recvOf (x : Ret) : List Ret → Nat → Option Nat
     | some r' => some r'
     | none => if y = x then some r else none
 
+/-- a child output (`ch = some o'` of child `j`) now holds `v`: push it to the macro output linked
+to that channel, if any; returns which macro output (if any) now holds `v` -/
+def pushUp (rets : List Ret) (j : Nat) (v : Val) (σ1 : St) : Option Nat → St × Option Nat
+  | none => (σ1, none)
+  | some o' =>
+    match recvOf (.out j o') rets 0 with
+    | some r => (σ1.set .out r v, some r)
+    | none => (σ1, none)
+
 /-- `node_at_p.outputs[o].value = v`: stored and pushed up the chain of output links.
 Returns the new state and, if the value reached one, the output of `n` that now holds it. -/
 def setOutAt : Node → St → Path → Nat → Val → St × Option Nat
@@ -404,14 +413,8 @@ def setOutAt : Node → St → Path → Nat → Val → St × Option Nat
     match body[j]? with
     | none => (σ, none)
     | some m =>
-      let (τ, ch) := setOutAt m (σ.sub j) p o v
-      let σ1 := σ.graft j τ
-      match ch with
-      | none => (σ1, none)
-      | some o' =>
-        match recvOf (.out j o') rets 0 with
-        | some r => (σ1.set .out r v, some r)
-        | none => (σ1, none)
+      let r := setOutAt m (σ.sub j) p o v
+      pushUp rets j v (σ.graft j r.1) r.2
 
 /-- `ui_k.inputs.user_input.value = v` of the macro at `p` (the receiving end of an input link) -/
 def setUiInAt (σ : St) (p : Path) (k : Nat) (v : Val) : St :=
@@ -430,14 +433,8 @@ def setUiOutAt : Node → St → Path → Nat → Val → St × Option Nat
     match body[j]? with
     | none => (σ, none)
     | some m =>
-      let (τ, ch) := setUiOutAt m (σ.sub j) p k v
-      let σ1 := σ.graft j τ
-      match ch with
-      | none => (σ1, none)
-      | some o' =>
-        match recvOf (.out j o') rets 0 with
-        | some r => (σ1.set .out r v, some r)
-        | none => (σ1, none)
+      let r := setUiOutAt m (σ.sub j) p k v
+      pushUp rets j v (σ.graft j r.1) r.2
 
 /-! ## plain composition (denotational semantics) -/
 
